@@ -21,9 +21,9 @@ func init() {
 }
 
 type scanSite struct {
-	pkg, fn   string
-	parser    string // callee that parses one line
-	kind      string // identities | recipients
+	pkg, fn string
+	parser  string // callee that parses one line
+	kind    string // identities | recipients
 }
 
 var scanSites = []scanSite{
@@ -38,11 +38,11 @@ func runC18(p *Program, r *Result) {
 	r.Rule("R18.2", "a malformed line aborts with an error naming its line number", 8)
 	r.Rule("R18.3", "no key at all is an error; keys are appended in file order", 8)
 	type loopInfo struct {
-		fn     *ssa.Function
-		loop   *natLoop
-		line   ssa.Value
-		parse  *ssa.Call
-		site   scanSite
+		fn    *ssa.Function
+		loop  *natLoop
+		line  ssa.Value
+		parse *ssa.Call
+		site  scanSite
 	}
 	var infos []loopInfo
 	for _, s := range scanSites {
